@@ -33,6 +33,8 @@ ReplMatches(r, jr) ==
     /\ (r.up => r.mode = jr.mode) /\ r.up = (jr.conn # 0) /\ r.failures = jr.failures
     /\ Len(r.reqs) + Len(r.resps) = jr.out
     /\ r.lu.on = (jr.luCh > 0)
+    /\ r.round.on = (jr.round > 0)
+    /\ r.round.on => (r.round.ord = jr.round /\ r.round.last = jr.roundLast /\ r.round.done = jr.roundDone /\ r.round.stale = jr.roundStale)
 
 LdrMatches(s, j) ==
     /\ s.ldr.on = j.ldr.on
@@ -62,21 +64,36 @@ NodeMatches(s, j) ==
         /\ LdrMatches(s, j)
         /\ (s.died = "") = (j.died = "")
 
-Matches == \A n \in Node : NodeMatches(node'[n], JNode(Rec, n))
+\* debugging aid: VERIF_DEBUG_AT=k accepts record k without comparing and prints the specification's state after it
+DebugAt == IF "VERIF_DEBUG_AT" \in DOMAIN IOEnv THEN atoi(IOEnv.VERIF_DEBUG_AT) ELSE 0
+Matches == (l + 1 = DebugAt) \/ \A n \in Node : NodeMatches(node'[n], JNode(Rec, n))
+DebugPrint == (l = DebugAt /\ DebugAt > 0) => PrintT(<<"SPEC-STATE", ToJson([node |-> node, ev |-> ev])>>)
 
-Step(A) == l < Len(Trace) /\ A /\ l' = l + 1 /\ Matches
+ActOf(a) == IF "voters" \in DOMAIN a THEN [a EXCEPT !.voters = {a.voters[k] : k \in 1..Len(a.voters)}] ELSE a
+ActsOf(e) == IF "acts" \in DOMAIN e THEN {ActOf(e.acts[k]) : k \in 1..Len(e.acts)} ELSE {}
+StimRf == IF "rf" \in DOMAIN Rec.stim THEN Rec.stim.rf ELSE TRUE
+\* The order in which Go ranges over l.repls in the NEXT step is a prophecy variable of Raft.tla (ordc). It can
+\* only matter when that step performs a membership action, which the next record tells; otherwise one fixed
+\* order is tried. rfc (round-fast outcome of the next step) is read from the next record's stimulus.
+NextNeedsOrd == l + 2 <= Len(Trace) /\ "acts" \in DOMAIN Trace[l + 2].ev
+                  /\ \E k \in 1..Len(Trace[l + 2].ev.acts) : Trace[l + 2].ev.acts[k].kind = "action"
+FixedOrd == CHOOSE q \in AllOrds : \A k \in 1..(Len(q) - 1) : q[k] < q[k + 1]
+NextRf == IF l + 2 <= Len(Trace) /\ "rf" \in DOMAIN Trace[l + 2].stim THEN Trace[l + 2].stim.rf ELSE TRUE
+Prophecy == ordc' \in (IF NextNeedsOrd THEN AllOrds ELSE {FixedOrd}) /\ rfc' = NextRf
+Step(A) == l < Len(Trace) /\ Prophecy /\ A /\ l' = l + 1 /\ Matches /\ (ev'.acts = ActsOf(Ev) \/ l + 1 = DebugAt)
 
 IsEv(k) == l < Len(Trace) /\ Ev.kind = k
 Has(f) == f \in DOMAIN Ev
 
 TReset ==
     /\ IsEv("init")
-    /\ Reset /\ l' = l + 1
+    /\ Prophecy /\ Reset /\ l' = l + 1
     /\ Matches
 
 TSkipped ==
     /\ l < Len(Trace) /\ (Ev.kind = "skipped" \/ Has("skipped"))
-    /\ UNCHANGED vars /\ l' = l + 1
+    /\ UNCHANGED <<node, rpcs, orph, gh, ctr, ev, hist>> /\ l' = l + 1
+    /\ Prophecy
 
 TTimeout == IsEv("timeout") /\ Step(Timeout(Ev.n))
 
@@ -99,7 +116,7 @@ TAppendReq ==
     /\ IsEv("appendReq")
     /\ \/ /\ Step(AppendReq(Ev.i, Ev.j))
           /\ (Has("result") => (ev'.result = Ev.result /\ ev'.respTerm = Ev.respTerm /\ ev'.respLast = Ev.respLast))
-       \/ \E o \in orph : o.from = Ev.i /\ o.to = Ev.j /\ Step(OrphanReq(o))
+       \/ \E k \in 1..Len(orph) : orph[k].from = Ev.i /\ orph[k].to = Ev.j /\ Step(OrphanReq(k))
             /\ (Has("result") => (ev'.result = Ev.result /\ ev'.respTerm = Ev.respTerm /\ ev'.respLast = Ev.respLast))
 
 TAppendResp == IsEv("appendResp") /\ Step(AppendResp(Ev.i, Ev.j))
@@ -110,11 +127,12 @@ TClient     == IsEv("client") /\ Len(Ev.ops) = 1 /\ Ev.ops[1].op = "update" /\ S
 TFsm        == IsEv("fsm") /\ Step(Fsm(Ev.n))
 TCrash      == IsEv("crash") /\ Step(Crash(Ev.n))
 TRestart    == IsEv("restart") /\ Step(Restart(Ev.n))
+TChangeCfg  == IsEv("changeConfig") /\ Step(ChangeConfigOp(Ev.n, NodesFun(Ev.nodes)))
 TDisc       == IsEv("disconnected") /\ Step(Disconnected(Ev.n, Ev.peer))
 
-TInit == Init /\ l = 0
+TInit == Init /\ l = 0 /\ ordc = FixedOrd /\ rfc = TRUE
 TNext == \/ TReset \/ TSkipped \/ TTimeout \/ TVoteReq \/ TVoteResp \/ TReplSend \/ TAppendReq \/ TAppendResp
-         \/ TReplFail \/ TReplPoll \/ TLdrUpdates \/ TClient \/ TFsm \/ TCrash \/ TRestart \/ TDisc
+         \/ TReplFail \/ TReplPoll \/ TLdrUpdates \/ TClient \/ TFsm \/ TCrash \/ TRestart \/ TDisc \/ TChangeCfg
 
 \* printed at every state; the last line printed tells how far the trace was accepted
 Progress == (l = Len(Trace)) => PrintT(<<"TRACE-ACCEPTED", l>>)
